@@ -167,7 +167,7 @@ func (b *bounds) guardStable(site core.IndexSite, in ssa.Instruction, x, idx ssa
 			continue
 		}
 		ox, oidx, _, _, osl := indexParts(oin)
-		if osl || oidx != idx {
+		if osl || !sameArith(oidx, idx, 0) {
 			continue
 		}
 		ob, of, ok := core.LoadedField(ox)
@@ -433,4 +433,33 @@ func (b *bounds) searchResult(in ssa.Instruction, x, idx ssa.Value) (bool, strin
 		}
 	}
 	return false, "search was made on another slice"
+}
+
+// sameArith: the two values are the same SSA value, or the same pure arithmetic over the same operands
+// (go/ssa does not share common subexpressions: `x-1` written twice gives two instructions).
+func sameArith(a, b ssa.Value, depth int) bool {
+	a, b = core.Unwrap(a), core.Unwrap(b)
+	if a == b {
+		return true
+	}
+	if depth > 4 {
+		return false
+	}
+	switch x := a.(type) {
+	case *ssa.Const:
+		y, ok := b.(*ssa.Const)
+		if !ok {
+			return false
+		}
+		cx, okx := core.ConstInt(x)
+		cy, oky := core.ConstInt(y)
+		return okx && oky && cx == cy
+	case *ssa.BinOp:
+		y, ok := b.(*ssa.BinOp)
+		return ok && x.Op == y.Op && sameArith(x.X, y.X, depth+1) && sameArith(x.Y, y.Y, depth+1)
+	case *ssa.Convert:
+		y, ok := b.(*ssa.Convert)
+		return ok && types.Identical(x.Type(), y.Type()) && sameArith(x.X, y.X, depth+1)
+	}
+	return false
 }
